@@ -57,6 +57,17 @@ theorem taskRun_spec (as : List ARes) : ∀ (res : Res) (vals : Vals) (ran : Nat
       rw [this.2.2.2]; omega
     · simp [taskRun, h, okPrefix_cons_bad a as h]
 
+theorem teardownRun_spec (as : List ARes) : ∀ (res : Res) (vals : Vals) (ran : Nat),
+    teardownRun ran as = ((taskRun res vals ran as).outcome, (taskRun res vals ran as).ran) := by
+  induction as with
+  | nil => intro res vals ran; rfl
+  | cons a as ih =>
+    intro res vals ran
+    by_cases h : a.outcome = .ok
+    · simp only [teardownRun, taskRun, h, if_true]
+      exact ih _ _ _
+    · simp [teardownRun, taskRun, h]
+
 theorem foldl_last (pre : List ARes) : ∀ res : Res,
     pre.foldl (fun _ a => a.result) res = (pre.getLast?.map (·.result)).getD res := by
   induction pre with
